@@ -9,10 +9,10 @@ import (
 )
 
 const (
-	parCreate = iota
-	parMatch
-	parMismatch
-	parUpdate
+	vxParCreate = iota
+	vxParMatch
+	vxParMismatch
+	vxParUpdate
 )
 
 // H_C06_parallel: two tests run concurrently against one snapshot file, each
@@ -29,26 +29,26 @@ func H_C06_parallel() {
 	// schedule holds for all values), or fixed letters
 	sv, nv := "s", "n"
 	if k := vxrt.Param("sym", 1); k > 0 {
-		sv = symText("stored", k, true)
-		nv = symText("new", k, true)
-		vxrt.Assume(differs(sv, nv))
-		vxrt.Assume(vxrt.Not(vxrt.Or(hasLine(sv, "---"), hasLine(nv, "---"))))
+		sv = vxSymText("stored", k, true)
+		nv = vxSymText("new", k, true)
+		vxrt.Assume(vxDiffers(sv, nv))
+		vxrt.Assume(vxrt.Not(vxrt.Or(vxHasLine(sv, "---"), vxHasLine(nv, "---"))))
 	}
 	names := [2]string{"TestA", "TestB"}
-	content := frame("TestZ - 1", "z")
+	content := vxFrame("TestZ - 1", "z")
 	for g := 0; g < 2; g++ {
-		if kinds[g] != parCreate {
-			content += frame(names[g]+" - 1", sv)
+		if kinds[g] != vxParCreate {
+			content += vxFrame(names[g]+" - 1", sv)
 		}
 	}
-	fresh := kinds[0] == parCreate && kinds[1] == parCreate && vxrt.Bool("brand-new-file")
+	fresh := kinds[0] == vxParCreate && kinds[1] == vxParCreate && vxrt.Bool("brand-new-file")
 	if !fresh {
-		writeFile(path, content)
+		vxWriteFile(path, content)
 	}
 	plain := WithConfig(Dir(dir), Filename("f"))
 	upd := WithConfig(Dir(dir), Filename("f"), Update(true))
-	forceInit()
-	ts := [2]*mockT{newT(names[0]), newT(names[1])}
+	vxForceInit()
+	ts := [2]*vxMockT{vxNewT(names[0]), vxNewT(names[1])}
 	var wg sync.WaitGroup
 	wg.Add(2)
 	for g := 0; g < 2; g++ {
@@ -56,11 +56,11 @@ func H_C06_parallel() {
 		go func() {
 			defer wg.Done()
 			switch kinds[g] {
-			case parCreate:
+			case vxParCreate:
 				plain.MatchSnapshot(ts[g], nv)
-			case parMatch:
+			case vxParMatch:
 				plain.MatchSnapshot(ts[g], sv)
-			case parMismatch:
+			case vxParMismatch:
 				plain.MatchSnapshot(ts[g], nv)
 			default:
 				upd.MatchSnapshot(ts[g], nv)
@@ -73,13 +73,13 @@ func H_C06_parallel() {
 	wantBody := [2]string{}
 	for g := 0; g < 2; g++ {
 		switch kinds[g] {
-		case parCreate:
+		case vxParCreate:
 			vxrt.Assert(len(ts[g].errors) == 0 && len(ts[g].logs) == 1, "C06:create-outcome-as-serial")
 			wantBody[g] = nv
-		case parMatch:
+		case vxParMatch:
 			vxrt.Assert(len(ts[g].errors) == 0 && len(ts[g].logs) == 0, "C06:match-outcome-as-serial")
 			wantBody[g] = sv
-		case parMismatch:
+		case vxParMismatch:
 			vxrt.Assert(len(ts[g].errors) == 1 && len(ts[g].logs) == 0, "C06:mismatch-outcome-as-serial")
 			wantBody[g] = sv
 		default:
@@ -87,18 +87,18 @@ func H_C06_parallel() {
 			wantBody[g] = nv
 		}
 	}
-	final := readFile(path)
+	final := vxReadFile(path)
 	total := 0
 	if !fresh {
-		total = len(frame("TestZ - 1", "z"))
-		got, _, err := refPrev("[TestZ - 1]", path)
+		total = len(vxFrame("TestZ - 1", "z"))
+		got, _, err := vxRefPrev("[TestZ - 1]", path)
 		vxrt.Assert(err == nil && got == "z", "C06:bystander-entry-intact")
 	}
 	for g := 0; g < 2; g++ {
-		got, _, err := refPrev("["+names[g]+" - 1]", path)
+		got, _, err := vxRefPrev("["+names[g]+" - 1]", path)
 		vxrt.Assert(err == nil, "C06:no-entry-lost")
 		vxrt.Assert(vxrt.Eq(got, wantBody[g]), "C06:entry-has-the-right-value")
-		total += len(frame(names[g]+" - 1", wantBody[g]))
+		total += len(vxFrame(names[g]+" - 1", wantBody[g]))
 	}
 	vxrt.Assert(len(final) == total, "C06:no-duplicate-or-torn-entry")
 }
@@ -113,12 +113,12 @@ func H_C06_twocalls() {
 	dir := vxrt.Dir()
 	path := dir + "/f.snap"
 	if !vxrt.Bool("brand-new-file") {
-		writeFile(path, frame("TestZ - 1", bystander()))
+		vxWriteFile(path, vxFrame("TestZ - 1", vxBystander()))
 	}
 	c := WithConfig(Dir(dir), Filename("f"))
-	forceInit()
+	vxForceInit()
 	names := [2]string{"TestA", "TestB"}
-	ts := [2]*mockT{newT(names[0]), newT(names[1])}
+	ts := [2]*vxMockT{vxNewT(names[0]), vxNewT(names[1])}
 	var wg sync.WaitGroup
 	wg.Add(2)
 	for g := 0; g < 2; g++ {
@@ -134,8 +134,8 @@ func H_C06_twocalls() {
 	ts[1].end()
 	for g := 0; g < 2; g++ {
 		vxrt.Assert(len(ts[g].errors) == 0 && len(ts[g].logs) == 2, "C06:create-outcome-as-serial")
-		one, _, err1 := refPrev("["+names[g]+" - 1]", path)
-		two, _, err2 := refPrev("["+names[g]+" - 2]", path)
+		one, _, err1 := vxRefPrev("["+names[g]+" - 1]", path)
+		two, _, err2 := vxRefPrev("["+names[g]+" - 2]", path)
 		vxrt.Assert(err1 == nil && err2 == nil, "C06:no-entry-lost")
 		vxrt.Assert(one == names[g]+"-one" && two == names[g]+"-two", "C06:entry-has-the-right-value")
 	}
@@ -150,11 +150,11 @@ func H_C06_three() {
 	vxrt.EnvFixed("NO_COLOR", "1")
 	dir := vxrt.Dir()
 	path := dir + "/f.snap"
-	writeFile(path, frame("TestB - 1", "old")+frame("TestZ - 1", bystander()))
+	vxWriteFile(path, vxFrame("TestB - 1", "old")+vxFrame("TestZ - 1", vxBystander()))
 	plain := WithConfig(Dir(dir), Filename("f"))
 	upd := WithConfig(Dir(dir), Filename("f"), Update(true))
-	forceInit()
-	ta, tb, tc := newT("TestA"), newT("TestB"), newT("TestC")
+	vxForceInit()
+	ta, tb, tc := vxNewT("TestA"), vxNewT("TestB"), vxNewT("TestC")
 	var wg sync.WaitGroup
 	wg.Add(3)
 	go func() {
@@ -178,8 +178,8 @@ func H_C06_three() {
 	}()
 	wg.Wait()
 	vxrt.Assert(len(ta.errors)+len(tb.errors)+len(tc.errors) == 0 && len(ta.logs) == 2 && len(tb.logs) == 1 && len(tc.logs) == 1, "C06:outcomes-as-serial")
-	for _, e := range [][2]string{{"TestA - 1", "a-one"}, {"TestA - 2", "a-two"}, {"TestB - 1", "new"}, {"TestC - 1", "c-one"}, {"TestZ - 1", bystander()}} {
-		got, _, err := refPrev("["+e[0]+"]", path)
+	for _, e := range [][2]string{{"TestA - 1", "a-one"}, {"TestA - 2", "a-two"}, {"TestB - 1", "new"}, {"TestC - 1", "c-one"}, {"TestZ - 1", vxBystander()}} {
+		got, _, err := vxRefPrev("["+e[0]+"]", path)
 		vxrt.Assert(err == nil, "C06:no-entry-lost")
 		vxrt.Assert(got == e[1], "C06:entry-has-the-right-value")
 	}
@@ -188,7 +188,7 @@ func H_C06_three() {
 // bystander is the body of an entry nobody addresses. In a native stress replay it is large (4 MiB), which
 // only widens the window of a read-modify-write so that the stress replay has a chance to meet an
 // interleaving the engine found; the engine explores the same scenario with a one-byte body.
-func bystander() string {
+func vxBystander() string {
 	if !vxrt.Stress() {
 		return "z"
 	}
